@@ -200,6 +200,15 @@ pub fn convert_once(case: &Case) -> Result<(Vec<(String, Vec<i16>)>, String), St
     match case.conv {
         0 => {
             let lib = build_raw(case);
+            if case.two_cells {
+                // the layout cell also instantiates three cells that are not members of the library's own cell list
+                let top = lib.cells.last().unwrap().clone();
+                let mut top = top.write().map_err(|_| "lock".to_string())?;
+                for k in 0..3 {
+                    let ext = Ptr::new(Cell::from(Layout { name: format!("outside{k}"), insts: vec![], elems: vec![], annotations: vec![] }));
+                    top.layout.as_mut().unwrap().insts.push(Instance { inst_name: format!("io{k}"), cell: ext, loc: Point::new(50 * k, 7), reflect_vert: false, angle: None });
+                }
+            }
             let sig = map_orders(&lib);
             let g = fixed_dates(lib.to_gds().map_err(e)?);
             Ok((sig, gds_bytes(&g)?))
@@ -286,6 +295,10 @@ pub fn convert_once(case: &Case) -> Result<(Vec<(String, Vec<i16>)>, String), St
                 }
                 top.elems.push(GdsElement::GdsPath(GdsPath { layer: LAYER_NUMS[i], datatype: 0, xy: GdsPoint::vec(&[(0, 100 + 10 * i as i32), (70, 100 + 10 * i as i32)]), width: Some(4), ..Default::default() }));
             }
+            // labels on three layers that carry no geometry anywhere (the importer has to create those layers)
+            for (k, l) in [47i16, 41, 45].iter().enumerate() {
+                top.elems.push(GdsElement::GdsTextElem(GdsTextElem { string: format!("note{k}"), layer: *l, texttype: k as i16, xy: GdsPoint::new(900 + k as i32, 900), ..Default::default() }));
+            }
             // the top struct references three distinct children (and one of them twice)
             for (li, n) in ["leafB", "leafC", "leafA"].iter().enumerate() {
                 top.elems.push(GdsElement::GdsStructRef(GdsStructRef { name: n.to_string(), xy: GdsPoint::new(7 + li as i32, 8), strans: Some(GdsStrans { reflected: li == 0, angle: Some(90.0 * li as f64), ..Default::default() }), ..Default::default() }));
@@ -356,8 +369,9 @@ pub fn convert_once(case: &Case) -> Result<(Vec<(String, Vec<i16>)>, String), St
             let cell = CellIn {
                 metals: 2,
                 size: (6, 6),
-                cuts: if case.two_shapes { vec![CrossD(0, 0, 1, 1), CrossD(0, 0, 1, 1)] } else { vec![CrossD(0, 0, 1, 2)] },
-                assigns: vec![],
+                // two_ports: instead of a failing cut, an assignment that lands on a cut of a track an instance blocks too
+                cuts: if case.two_ports { vec![CrossD(0, 0, 1, 0)] } else if case.two_shapes { vec![CrossD(0, 0, 1, 1), CrossD(0, 0, 1, 1)] } else { vec![CrossD(0, 0, 1, 2)] },
+                assigns: if case.two_ports { vec![("n".to_string(), CrossD(0, 0, 1, 0))] } else { vec![] },
                 insts: vec![InstIn { child: 0, loc: (4, 0), rh: false, rv: false }],
             };
             let cd = CaseD { stack: si, cell, children: vec![ChildD { metals: 1, size: (2, 6) }] };
